@@ -76,6 +76,67 @@ Example ex_concurrent :
   /\ wait_lin (with_srt o (srt_run 3 [SQueued 4; SApplied 4])) = LinOk.
 Proof. vm_compute. auto. Qed.
 
+(* ---- one client call puts at most one entry into the log ---- *)
+
+(* what raft promises about the apply future (assumed): ErrNotLeader means the entry was never
+   appended *)
+Definition raft_future_ok (a : attempt) : Prop := at_end a = ANotLeader -> at_appended a = false.
+
+(* the proxy re-submits only what was certainly not appended, so one call never yields two
+   entries; an ErrLeadershipLost write is reported as unknown and is NOT re-submitted *)
+Theorem no_double_apply local remote :
+  raft_future_ok local -> (call_entries local remote <= 1)%N.
+Proof.
+  unfold raft_future_ok. intros H.
+  destruct local as [l r e a], remote as [l' r' e' a']. cbn [at_end at_appended] in H.
+  destruct e.
+  2:{ rewrite (H eq_refl). destruct l, r, l', r', a'; vm_compute; discriminate. }
+  all: destruct l, r, a, l', r', a'; vm_compute; discriminate.
+Qed.
+
+Theorem leadership_lost_is_unknown_and_stays_here remote a :
+  let local := {| at_leader := true; at_ready := true; at_end := ALeadershipLost; at_appended := a |} in
+  call_class local remote = WUnknown /\ forwards (attempt_class local) = false.
+Proof. split; reflexivity. Qed.
+
+(* an acknowledged call has exactly one entry (its own), when the pre-checks passed and the
+   future ended well here, or was refused here untouched and ended well at the leader *)
+Theorem acked_call_has_one_entry local remote :
+  raft_future_ok local ->
+  (at_end local = AOk -> at_appended local = true) -> (at_end remote = AOk -> at_appended remote = true) ->
+  call_class local remote = WAcked -> call_entries local remote = 1%N.
+Proof.
+  unfold raft_future_ok. intros H Hl Hr.
+  destruct local as [l r e a], remote as [l' r' e' a']. cbn [at_end at_appended] in *.
+  destruct e.
+  - rewrite (Hl eq_refl). destruct e'.
+    + rewrite (Hr eq_refl). destruct l, r, l', r'; vm_compute; congruence.
+    + destruct l, r, l', r', a'; vm_compute; congruence.
+    + destruct l, r, l', r', a'; vm_compute; congruence.
+    + destruct l, r, l', r', a'; vm_compute; congruence.
+  - rewrite (H eq_refl). destruct e'.
+    + rewrite (Hr eq_refl). destruct l, r, l', r'; vm_compute; congruence.
+    + destruct l, r, l', r', a'; vm_compute; congruence.
+    + destruct l, r, l', r', a'; vm_compute; congruence.
+    + destruct l, r, l', r', a'; vm_compute; congruence.
+  - destruct e'.
+    + rewrite (Hr eq_refl). destruct l, r, a, l', r'; vm_compute; congruence.
+    + destruct l, r, a, l', r', a'; vm_compute; congruence.
+    + destruct l, r, a, l', r', a'; vm_compute; congruence.
+    + destruct l, r, a, l', r', a'; vm_compute; congruence.
+  - destruct e'.
+    + rewrite (Hr eq_refl). destruct l, r, a, l', r'; vm_compute; congruence.
+    + destruct l, r, a, l', r', a'; vm_compute; congruence.
+    + destruct l, r, a, l', r', a'; vm_compute; congruence.
+    + destruct l, r, a, l', r', a'; vm_compute; congruence.
+Qed.
+
+Example ex_lost :
+  let local := {| at_leader := true; at_ready := true; at_end := ALeadershipLost; at_appended := true |} in
+  let remote := {| at_leader := true; at_ready := true; at_end := AOk; at_appended := true |} in
+  call_entries local remote = 1%N /\ call_class local remote = WUnknown.
+Proof. vm_compute. auto. Qed.
+
 (* ---- replay ---- *)
 
 Lemma replay_app es1 es2 k cur : replay (es1 ++ es2) k cur = replay es2 k (replay es1 k cur).
